@@ -181,13 +181,8 @@ func overlapStats(spans []span) (pairs int64, maxInFlight int) {
 // child: concurrent Execute/GetSchema on one index (built with -race)
 
 func workerC04Index(args []string) int {
-	b, err := os.ReadFile(args[0])
-	if err != nil {
-		fmt.Fprintln(os.Stderr, err)
-		return 3
-	}
 	var spec c04Spec
-	if err := json.Unmarshal(b, &spec); err != nil {
+	if err := readSpec(args[0], &spec); err != nil {
 		fmt.Fprintln(os.Stderr, err)
 		return 3
 	}
@@ -684,9 +679,11 @@ func c04Index(r *vf.Run) {
 			spec.Configs = append(spec.Configs, c04Config{Name: fmt.Sprintf("fresh-first-use/g16/%s/%s", cache, mode), Goroutines: 16, Cache: cache, Mode: mode, PerG: 3, Repeat: r.Pick(25, 120)})
 		}
 	}
-	b, _ := json.Marshal(spec)
-	specPath := filepath.Join(dir, "spec.json")
-	_ = os.WriteFile(specPath, b, 0o644)
+	specPath := filepath.Join(dir, "spec.gob")
+	if err := writeSpec(specPath, spec); err != nil {
+		r.Inconclusive("cannot write the child's case specification: " + err.Error())
+		return
+	}
 	rounds := r.Pick(1, 8)
 	for round := 0; round < rounds; round++ {
 		rid := fmt.Sprintf("index/round%d", round)
